@@ -28,6 +28,9 @@ case = {
   'codec':   None | 'json' | ...         content subtype of the server's codec (None: 'proto', like ProtoCodec); a
                                          server with another codec speaks application/grpc+<subtype> and must not
                                          accept the bare application/grpc (which means +proto)
+  'details': None | 'empty' | 'obj' | 'nested'   status details the handler attaches to every GRPCError it raises
+                                         and to its explicit trailers: none, [], an arbitrary python object (dict),
+                                         a list of arbitrary objects -- whatever they are, the call must be answered
   'hooks_await': bool                    listeners on RecvRequest / RecvMessage / SendInitialMetadata /
                                          SendMessage / SendTrailingMetadata really suspend (await asyncio.sleep(0))
 }
@@ -170,6 +173,8 @@ def _run(case, loop):
     ext_at = case.get('ext_at')
     body = case['body']
     reply = BIG_REPLY if case.get('big') else REPLY
+    details = {None: None, 'empty': [], 'obj': {'reason': 'quota', 'retry': 3},
+               'nested': [{'a': 1}, object()]}[case.get('details')]
     st = {'results': [], 'end': None, 'sleeps': 0, 'fired': None, 'started': False, 'where': None,
           'phase': 'ops', 'cause': None, 'hook': None, 'finished': False}
     box = {}
@@ -192,7 +197,7 @@ def _run(case, loop):
             return
         if f[0] == 'grpc':
             st['end'] = tag + 'grpc'
-            raise GRPCError(_status(f[1]), f[2])
+            raise GRPCError(_status(f[1]), f[2], details)
         if f[0] == 'exc':
             kind = f[1] if len(f) > 1 else 'exc'
             st['end'] = tag + kind
@@ -231,6 +236,7 @@ def _run(case, loop):
                         res.append('ok')
                     elif k == 'T':
                         await stream.send_trailing_metadata(status=_status(op[1]), status_message=op[2],
+                                                            status_details=details,
                                                             metadata=[('k', 'caf\xe9')] if mode == 'a' else None)
                         res.append('ok')
                     elif k == 'P':
